@@ -2,7 +2,9 @@
    Property theorems only.  Models: Model/HighestAverages.v (the loop of
    HighestAverages.evaluate), Prelude/GDict.v + Model/Convert.v (additive converters),
    Model/GetNBest.v, Model/Condorcet.v, Model/Bucklin.v (PreferenceAddition.evaluate); proofs: Proofs/Mono_proofs.v,
-   Proofs/Additive_proofs.v, Proofs/HA_proofs.v, Proofs/CopelandMono_proofs.v, Proofs/Minimax_proofs.v, Proofs/Bucklin_proofs.v.
+   Proofs/Additive_proofs.v, Proofs/HA_proofs.v, Proofs/CopelandMono_proofs.v, Proofs/Minimax_proofs.v, Proofs/Bucklin_proofs.v,
+   Proofs/BucklinShared_proofs.v, Proofs/BucklinLeave_proofs.v (changed ballots with shared ranks), Proofs/RaisesBallot_proofs.v (one moved
+   ballot -> pairwise counts, Model/Hybrids.v pairwise), Proofs/Scorers_proofs.v (rank scorers).
 
    [tot_s (final_state d votes n prev caps) c] is the number of seats party c holds for certain when
    the loop stops (previous gains + seats awarded; seats of a reported tie are not included). *)
@@ -10,7 +12,11 @@ From Coq Require Import ZArith QArith List Bool Lia.
 From VL Require Import Prelude.Sx Prelude.PyDict Prelude.GDict Model.GetNBest Model.Divisor Model.HighestAverages
      Model.Convert Model.Condorcet Model.Bucklin
      Proofs.Dict_proofs Proofs.HA_proofs Proofs.Divisor_proofs Proofs.Mono_proofs Proofs.Additive_proofs
-     Proofs.Convert_proofs Proofs.CopelandMono_proofs Proofs.Minimax_proofs Proofs.Condorcet_proofs Proofs.Schulze_proofs Proofs.Bucklin_proofs.
+     Proofs.Convert_proofs Proofs.CopelandMono_proofs Proofs.Minimax_proofs Proofs.Condorcet_proofs Proofs.Schulze_proofs Proofs.Bucklin_proofs
+     Proofs.BucklinShared_proofs Proofs.BucklinLeave_proofs.
+From VL Require Model.Hybrids Proofs.Hybrids_proofs.
+From VL Require Import Proofs.RaisesBallot_proofs Proofs.Scorers_proofs.
+From VL Require Gen.Rankscore.
 Import ListNotations.
 Open Scope Z_scope.
 
@@ -105,6 +111,76 @@ Proof.
   intros top. apply fixed_top_nonincreasing.
 Qed.
 
+(* ... and for the remaining scorers (Proofs/Scorers_proofs.v): Borda with any base (the list is never padded: more ranks than
+   candidates is the ValueError), Geometric with base >= 1, SequenceBased with a sequence that is non-increasing and ends
+   non-negative ([noninc0]: the list is padded with zeros, so a negative last score would be followed by a larger one) *)
+Theorem C17_scorers_nonincreasing_all : forall n_cands k s_pre a b s_post,
+  (forall base, rank_scores (Borda base) n_cands k = Some (s_pre ++ a :: b :: s_post) -> (b <= a)%Q) /\
+  (forall base, 1 <= base -> rank_scores (Geometric base) n_cands k = Some (s_pre ++ a :: b :: s_post) -> (b <= a)%Q) /\
+  (forall sq, noninc0 sq = true -> rank_scores (SequenceBased sq) n_cands k = Some (s_pre ++ a :: b :: s_post) -> (b <= a)%Q).
+Proof.
+  intros. split; [intros base; apply borda_nonincreasing|]. split; [intros base; apply geometric_nonincreasing|].
+  intros sq. apply sequence_nonincreasing.
+Qed.
+
+(* one decidable condition on the scorer object: every scorer satisfying it is non-increasing along every ballot *)
+Definition scorer_ok (s : Convert.scorer) : bool :=
+  match s with Geometric base => 1 <=? base | SequenceBased sq => noninc0 sq | _ => true end.
+
+Theorem C17_scorer_ok : forall s n_cands, scorer_ok s = true -> scorer_nonincreasing s n_cands.
+Proof.
+  intros s n_cands H k s_pre a b s_post. destruct s; cbn [scorer_ok] in H.
+  - apply borda_nonincreasing.
+  - apply dowdall_nonincreasing.
+  - apply geometric_nonincreasing. apply Z.leb_le, H.
+  - apply modified_borda_nonincreasing.
+  - apply fixed_top_nonincreasing.
+  - apply sequence_nonincreasing, H.
+Qed.
+
+(* the same inequalities on the per-rank score expressions GENERATED from votelib/component/rankscore.py (Gen/Rankscore.v; tied to
+   [rank_scores] by Props/GenTie_Rankscore.v): score(rank + 1) <= score(rank) for every rank >= 0 *)
+Theorem C17_gen_scorers_nonincreasing : forall (n r : Z), 0 <= r ->
+  (Gen.Rankscore.Dowdall_score n (r + 1) <= Gen.Rankscore.Dowdall_score n r)%Q /\
+  (forall base : Z, (1 <= base)%Z -> Gen.Rankscore.Geometric_score base n (r + 1) <= Gen.Rankscore.Geometric_score base n r)%Q /\
+  (Gen.Rankscore.ModifiedBorda_score n (r + 1) <= Gen.Rankscore.ModifiedBorda_score n r)%Q /\
+  (forall top : Z, Gen.Rankscore.FixedTop_score top n (r + 1) <= Gen.Rankscore.FixedTop_score top n r)%Q.
+Proof.
+  intros n r Hr. split; [apply gen_dowdall_nonincreasing, Hr|]. split; [intros base Hb; apply gen_geometric_nonincreasing; assumption|].
+  split; [apply gen_modified_borda_nonincreasing|intros top; apply gen_fixed_top_nonincreasing].
+Qed.
+
+(* positional rules, the winner moves up past ANY number of places on a ballot of plain ranks, any scorer with [scorer_ok]
+   (the ballot is not longer than the number of candidates: [rank_scores] answers) *)
+Theorem C17_positional_any : forall (s : Convert.scorer) (n_cands : nat) pre_b post_b (l1 l2 l3 : list C) (w : C) (wgt : Q) (sc : list Q),
+  (0 <= wgt)%Q -> ~ In w l2 -> scorer_ok s = true ->
+  rank_scores s n_cands (length l1 + length l2 + S (length l3)) = Some sc ->
+  get_n_best Qle_bool (dconv (pos_img s n_cands) (pre_b ++ (plain_ballot (l1 ++ l2 ++ w :: l3), wgt) :: post_b)) 1 = [Cand (kc w)] ->
+  get_n_best Qle_bool (dconv (pos_img s n_cands) (pre_b ++ (plain_ballot (l1 ++ w :: l2 ++ l3), wgt) :: post_b)) 1 = [Cand (kc w)].
+Proof.
+  intros s n_cands pre_b post_b l1 l2 l3 w wgt sc Hw Hnin Hok Hsc.
+  exact (positional_move_up s n_cands pre_b post_b l1 l2 w wgt sc Hw Hnin (C17_scorer_ok s n_cands Hok) l3 Hsc).
+Qed.
+
+(* the conditions are needed: Geometric(-2) gives 1, -1/2, 1/4; SequenceBased([1, -1]) gives 1, -1, 0 (padding); and with the
+   increasing sequence [0, 1] the sole winner B of {(A,B): 1} loses to A when it moves up to (B,A) *)
+Theorem C17_scorers_conditions_needed :
+  rank_scores (Geometric (-2)) 3 3 = Some ([1] ++ (- (1 # 2)) :: (1 # 4) :: [])%Q /\
+  rank_scores (SequenceBased [1; -(1)]%Q) 3 3 = Some ([1] ++ (-(1)) :: 0 :: [])%Q /\
+  get_n_best Qle_bool (dconv (pos_img (SequenceBased [0; 1]%Q) 2) ([] ++ (plain_ballot ([] ++ [1%positive] ++ 2%positive :: []), 1%Q) :: [])) 1 = [Cand (kc 2%positive)] /\
+  get_n_best Qle_bool (dconv (pos_img (SequenceBased [0; 1]%Q) 2) ([] ++ (plain_ballot ([] ++ 2%positive :: [1%positive] ++ []), 1%Q) :: [])) 1 = [Cand (kc 1%positive)].
+Proof. vm_compute. repeat split; reflexivity. Qed.
+
+(* non-vacuity: Borda, Geometric(2) and the sequence 5,3,3,1 satisfy the condition, [1, -1] and Geometric(-2) do not; 4 candidates,
+   {(B,A,C,D): 2, (D,C,B): 1} under Borda: B = 2 is the sole winner and moves from the third to the first place of the second ballot *)
+Example C17_positional_example :
+  scorer_ok (Borda 1) = true /\ scorer_ok (Geometric 2) = true /\ scorer_ok (SequenceBased [5; 3; 3; 1]%Q) = true /\
+  scorer_ok (SequenceBased [1; -(1)]%Q) = false /\ scorer_ok (Geometric (-2)) = false /\
+  let pre_b := [(plain_ballot [2; 1; 3; 4]%positive, 2%Q)] in
+  get_n_best Qle_bool (dconv (pos_img (Borda 1) 4) (pre_b ++ (plain_ballot ([] ++ [4; 3]%positive ++ 2%positive :: []), 1%Q) :: [])) 1 = [Cand (kc 2%positive)] /\
+  get_n_best Qle_bool (dconv (pos_img (Borda 1) 4) (pre_b ++ (plain_ballot ([] ++ 2%positive :: [4; 3]%positive ++ []), 1%Q) :: [])) 1 = [Cand (kc 2%positive)].
+Proof. vm_compute. repeat split; reflexivity. Qed.
+
 (* Copeland: if the pairwise counts change only in favour of w ([raises v v' w], Proofs/CopelandMono_proofs.v:
    same candidates, w's counts against the others do not drop, theirs against w do not rise, contests among the
    others untouched - what moving w upwards on a ballot, or adding a bullet vote for w, does), a sole winner by
@@ -126,6 +202,116 @@ Theorem C17_minimax : forall (v v' : pvotes) (w : C) (s : Condorcet.scorer),
   (2 <= length (candidates v))%nat -> raises v v' w ->
   minimax s v 1 = [Cand w] -> minimax s v' 1 = [Cand w].
 Proof. intros v v' w s Hnn Hnn' H2 Hr. exact (minimax_monotone v v' w Hnn Hnn' H2 Hr s). Qed.
+
+(* ---- from ONE moved ballot to the pairwise counts (Proofs/RaisesBallot_proofs.v), through the model of
+   RankedToCondorcetVotes(unranked_at_bottom=True).convert ([Hybrids.pairwise], Model/Hybrids.v: the fold of the per-ballot image
+   [img_condorcet true] of Model/Convert.v; integer weights; tied to the code by the streams rc-tie here and hybrids of C05).
+   On ONE ballot (x units of it; the profile list may name a ballot twice) w moves from behind the items p2 to the place before
+   them; the ballot may contain shared ranks anywhere, be truncated, the other ballots are arbitrary.  Then the dictionary changes
+   EXACTLY by: count(w, c) += x * (number of times c occurs in p2), count(c, w) -= the same, every other entry unchanged
+   ([jump p2 w a c] = [a = w] * #c in p2 - #a in p2 * [c = w]); and the candidates of the dictionary stay the same SET (their order of
+   first appearance can change, which is why [raises] - equal candidate lists - is weakened to [raises_s]). *)
+Theorem C17_ballot_pairwise_exact : forall (pre post : Hybrids.rvotes) (p1 p2 p3 : ranked) (x : Z) (w a c : C),
+  pget0 (Hybrids.pairwise (pre ++ (p1 ++ IP w :: p2 ++ p3, x) :: post)) (a, c) =
+  pget0 (Hybrids.pairwise (pre ++ (p1 ++ p2 ++ IP w :: p3, x) :: post)) (a, c) + x * jump p2 w a c.
+Proof. intros. apply pairwise_move_exact. Qed.
+
+Theorem C17_ballot_raises : forall (pre post : Hybrids.rvotes) (p1 p2 p3 : ranked) (x : Z) (w : C),
+  0 <= x -> ~ In w (flatten p2) ->
+  raises_s (Hybrids.pairwise (pre ++ (p1 ++ p2 ++ IP w :: p3, x) :: post))
+           (Hybrids.pairwise (pre ++ (p1 ++ IP w :: p2 ++ p3, x) :: post)) w.
+Proof. intros. apply pairwise_move_raises; assumption. Qed.
+
+(* [raises] implies [raises_s]; Copeland and minimax monotonicity hold under the weaker relation *)
+Theorem C17_copeland_s : forall (v v' : pvotes) (w : C) (so : bool),
+  NoDup (map fst v) -> NoDup (map fst v') ->
+  (forall p n, In (p, n) v -> 0 <= n) -> (forall p n, In (p, n) v' -> 0 <= n) ->
+  raises_s v v' w ->
+  copeland false v 1 = [Cand w] -> copeland so v' 1 = [Cand w].
+Proof. intros v v' w so Hnd Hnd' Hnn Hnn' Hr. exact (copeland_monotone_s v v' w Hnd Hnd' Hnn Hnn' Hr so). Qed.
+
+Theorem C17_minimax_s : forall (v v' : pvotes) (w : C) (s : Condorcet.scorer),
+  (forall p n, In (p, n) v -> 0 <= n) -> (forall p n, In (p, n) v' -> 0 <= n) ->
+  (2 <= length (candidates v))%nat -> raises_s v v' w ->
+  minimax s v 1 = [Cand w] -> minimax s v' 1 = [Cand w].
+Proof. intros v v' w s Hnn Hnn' H2 Hr. exact (minimax_monotone_s v v' w Hnn Hnn' H2 Hr s). Qed.
+
+(* Copeland and minimax ON BALLOTS: converter followed by the evaluator.  Copeland: any ballots, weights >= 0.  Minimax: no
+   candidate twice on a ballot, weights >= 0 ([wf_votes]) - this gives the dictionary two candidates. *)
+Theorem C17_copeland_ballots : forall (pre post : Hybrids.rvotes) (p1 p2 p3 : ranked) (x : Z) (w : C) (so : bool),
+  (forall r y, In (r, y) (pre ++ post) -> 0 <= y) -> 0 <= x -> ~ In w (flatten p2) ->
+  copeland false (Hybrids.pairwise (pre ++ (p1 ++ p2 ++ IP w :: p3, x) :: post)) 1 = [Cand w] ->
+  copeland so (Hybrids.pairwise (pre ++ (p1 ++ IP w :: p2 ++ p3, x) :: post)) 1 = [Cand w].
+Proof. intros pre post p1 p2 p3 x w so. apply copeland_ballot_monotone. Qed.
+
+Theorem C17_minimax_ballots : forall (pre post : Hybrids.rvotes) (p1 p2 p3 : ranked) (x : Z) (w : C) (s : Condorcet.scorer),
+  Hybrids_proofs.wf_votes (pre ++ (p1 ++ p2 ++ IP w :: p3, x) :: post) = true -> ~ In w (flatten p2) ->
+  minimax s (Hybrids.pairwise (pre ++ (p1 ++ p2 ++ IP w :: p3, x) :: post)) 1 = [Cand w] ->
+  minimax s (Hybrids.pairwise (pre ++ (p1 ++ IP w :: p2 ++ p3, x) :: post)) 1 = [Cand w].
+Proof. intros pre post p1 p2 p3 x w s. apply minimax_ballot_monotone. Qed.
+
+(* w LEAVES a shared rank {la, w, lb} for a place of its own directly above the rest of the rank: count(w, c) rises by x for every
+   member c of the rest, nothing else changes; for a well-formed profile with a non-empty dictionary the candidates stay the same set *)
+Theorem C17_ballot_leave_exact : forall (pre post : Hybrids.rvotes) (q p3 : ranked) (la lb : list C) (x : Z) (w a c : C),
+  pget0 (Hybrids.pairwise (pre ++ (q ++ IP w :: IS (la ++ lb) :: p3, x) :: post)) (a, c) =
+  pget0 (Hybrids.pairwise (pre ++ (q ++ IS (la ++ w :: lb) :: p3, x) :: post)) (a, c) + x * (Hybrids_proofs.cnt a [w] * Hybrids_proofs.cnt c (la ++ lb)).
+Proof. intros. apply pairwise_leave_exact. Qed.
+
+Theorem C17_ballot_leave_raises : forall (pre post : Hybrids.rvotes) (q p3 : ranked) (la lb : list C) (x : Z) (w : C),
+  Hybrids_proofs.wf_votes (pre ++ (q ++ IS (la ++ w :: lb) :: p3, x) :: post) = true ->
+  Hybrids.pairwise (pre ++ (q ++ IS (la ++ w :: lb) :: p3, x) :: post) <> [] ->
+  raises_s (Hybrids.pairwise (pre ++ (q ++ IS (la ++ w :: lb) :: p3, x) :: post))
+           (Hybrids.pairwise (pre ++ (q ++ IP w :: IS (la ++ lb) :: p3, x) :: post)) w.
+Proof. intros. apply pairwise_leave_raises; assumption. Qed.
+
+(* Copeland and minimax on ballots, the winner leaves a shared rank and moves further up past the items p2 *)
+Theorem C17_copeland_ballots_leave : forall (pre post : Hybrids.rvotes) (p1 p2 p3 : ranked) (la lb : list C) (x : Z) (w : C) (so : bool),
+  Hybrids_proofs.wf_votes (pre ++ (p1 ++ p2 ++ IS (la ++ w :: lb) :: p3, x) :: post) = true -> ~ In w (flatten p2) ->
+  copeland false (Hybrids.pairwise (pre ++ (p1 ++ p2 ++ IS (la ++ w :: lb) :: p3, x) :: post)) 1 = [Cand w] ->
+  copeland so (Hybrids.pairwise (pre ++ (p1 ++ IP w :: p2 ++ IS (la ++ lb) :: p3, x) :: post)) 1 = [Cand w].
+Proof.
+  intros pre post p1 p2 p3 la lb x w so Hwf Hp2 H. rewrite app_assoc in Hwf, H.
+  pose proof (copeland_ballot_leave pre post (p1 ++ p2) p3 la lb x w false Hwf H) as H1.
+  pose proof (wf_leave pre post (p1 ++ p2) p3 la lb x w Hwf) as Hwf1. rewrite <- app_assoc in H1, Hwf1.
+  apply (copeland_ballot_monotone pre post p1 p2 (IS (la ++ lb) :: p3) x w so); [| |exact Hp2|exact H1].
+  - intros r y Hin. apply (proj1 (Hybrids_proofs.wf_votes_spec _) Hwf1 r y). apply in_app_iff in Hin. apply in_app_iff.
+    destruct Hin as [Hin|Hin]; [left; exact Hin|right; right; exact Hin].
+  - apply (proj1 (Hybrids_proofs.wf_votes_spec _) Hwf1 (p1 ++ p2 ++ IP w :: IS (la ++ lb) :: p3) x). apply in_app_iff. right. left. reflexivity.
+Qed.
+
+Theorem C17_minimax_ballots_leave : forall (pre post : Hybrids.rvotes) (p1 p2 p3 : ranked) (la lb : list C) (x : Z) (w : C) (s : Condorcet.scorer),
+  Hybrids_proofs.wf_votes (pre ++ (p1 ++ p2 ++ IS (la ++ w :: lb) :: p3, x) :: post) = true -> ~ In w (flatten p2) ->
+  minimax s (Hybrids.pairwise (pre ++ (p1 ++ p2 ++ IS (la ++ w :: lb) :: p3, x) :: post)) 1 = [Cand w] ->
+  minimax s (Hybrids.pairwise (pre ++ (p1 ++ IP w :: p2 ++ IS (la ++ lb) :: p3, x) :: post)) 1 = [Cand w].
+Proof.
+  intros pre post p1 p2 p3 la lb x w s Hwf Hp2 H. rewrite app_assoc in Hwf, H.
+  pose proof (minimax_ballot_leave pre post (p1 ++ p2) p3 la lb x w s Hwf H) as H1.
+  pose proof (wf_leave pre post (p1 ++ p2) p3 la lb x w Hwf) as Hwf1. rewrite <- app_assoc in H1, Hwf1.
+  exact (minimax_ballot_monotone pre post p1 p2 (IS (la ++ lb) :: p3) x w s Hwf1 Hp2 H1).
+Qed.
+
+(* the candidate ORDER of the dictionary does change: (A,B,C) -> (A,C,B) lists the candidates A,B,C resp. A,C,B - so [raises]
+   itself does not hold between the two dictionaries, [raises_s] does *)
+Example C17_ballot_raises_order :
+  let v := Hybrids.pairwise ([] ++ ([IP 1%positive] ++ [IP 2%positive] ++ IP 3%positive :: [], 1) :: []) in
+  let v' := Hybrids.pairwise ([] ++ ([IP 1%positive] ++ IP 3%positive :: [IP 2%positive] ++ [], 1) :: []) in
+  candidates v = [1; 2; 3]%positive /\ candidates v' = [1; 3; 2]%positive /\ ~ raises v v' 3%positive /\ raises_s v v' 3%positive.
+Proof.
+  cbv zeta. split; [vm_compute; reflexivity|]. split; [vm_compute; reflexivity|]. split.
+  - intros (H & _). vm_compute in H. discriminate H.
+  - apply pairwise_move_raises; [lia|]. cbn. intros [H|[]]. discriminate H.
+Qed.
+
+(* non-vacuity: {(A,{B,C},D): 2, (D,A): 1, (B,D): 1} (a shared rank, truncated ballots): A = 1 is the sole minimax and Copeland
+   winner; on the second ballot it moves up, (D,A) -> (A,D); count(D, A) drops from 2 to 1 *)
+Example C17_ballots_example :
+  let pre := [([IP 1; IS [2; 3]; IP 4]%positive, 2)] in let post := [([IP 2; IP 4]%positive, 1)] in
+  Hybrids_proofs.wf_votes (pre ++ ([] ++ [IP 4%positive] ++ IP 1%positive :: [], 1) :: post) = true /\
+  minimax Margins (Hybrids.pairwise (pre ++ ([] ++ [IP 4%positive] ++ IP 1%positive :: [], 1) :: post)) 1 = [Cand 1%positive] /\
+  copeland false (Hybrids.pairwise (pre ++ ([] ++ [IP 4%positive] ++ IP 1%positive :: [], 1) :: post)) 1 = [Cand 1%positive] /\
+  pget0 (Hybrids.pairwise (pre ++ ([] ++ [IP 4%positive] ++ IP 1%positive :: [], 1) :: post)) (4, 1)%positive = 2 /\
+  pget0 (Hybrids.pairwise (pre ++ ([] ++ IP 1%positive :: [IP 4%positive] ++ [], 1) :: post)) (4, 1)%positive = 1.
+Proof. vm_compute. repeat split; reflexivity. Qed.
 
 (* Schulze.  votelib ranks the candidates by their NUMBER OF PATH-WINS (a Copeland count over the beat-path relation),
    not by Schulze's criterion "no path-defeat".  For that ranking the clause is REFUTED (C17_schulze_refuted): raising the
@@ -316,13 +502,130 @@ Proof.
   split; [simpl; intros [H|[]]; discriminate|]. split; [discriminate|]. repeat split; vm_compute; reflexivity.
 Qed.
 
-(* what is not proved: the clause for changed ballots that contain shared ranks while shared ranks are split
-   (false of the code as written, above; stated here for the repaired loop, decided per explored case by the check) *)
+(* ---- changed ballots WITH shared ranks under split_equal_rankings, repaired splicing loop (fx = true: the library after
+   5993e70 "offset advanced by len - 1" and db5d821 "adds the split weight to a ballot that already exists"; the check probes
+   which loop the implementation has).  Proofs/BucklinShared_proofs.v.
+   The clause as stated for all inputs: *)
 Definition C17_bucklin_shared_full_statement : Prop :=
   forall pre post (p1 p2 p3 : ranked) (x : Q) (w : C),
   Forall (fun bw => 0 <= snd bw)%Q (pre ++ post) -> (0 <= x)%Q -> ~ In w (flatten p2) ->
   bucklin true (pre ++ (p1 ++ p2 ++ IP w :: p3, x) :: post) 1 = PA_ok [Cand w] ->
   bucklin true (pre ++ (p1 ++ IP w :: p2 ++ p3, x) :: post) 1 = PA_ok [Cand w].
+
+(* the repaired _decouple_equal_rankings is LINEAR in the profile: for EVERY functional f of a ballot the f-weighted sum of
+   the decoupled profile is the sum over the original ballots of the MEAN of f over the variants of the ballot
+   ([spread f b] = f b for a ballot without shared ranks, else the mean over [variants true b]); the variants are the
+   in-place expansions of the shared ranks by their permutations (first shared rank slowest), none has a shared rank and
+   there is at least one.  (False of the loop as written: a variant can keep a shared rank, and the deleted key loses weight.) *)
+Theorem C17_decouple_linear : forall (f : ranked -> Q) (votes : list (ranked * Q)),
+  (rsum f (decouple true votes) == rsum (spread f) votes)%Q /\
+  (forall b, variants true b = svariants b /\ svariants b <> [] /\ forall v, In v (svariants b) -> has_shared v = false) /\
+  (forall k, In k (map fst (decouple true votes)) -> has_shared k = false).
+Proof.
+  intros f votes. split; [apply decouple_linear|]. split; [|apply decouple_plain_keys].
+  intros b. split; [apply variants_svariants|]. split; [apply svariants_nonempty|apply svariants_plain].
+Qed.
+
+(* general form with shared ranks split: one ballot (b, x) is replaced by (b', x) such that, ON AVERAGE OVER THE VARIANTS, b' has
+   at no round given w less and nobody else more.  b and b' arbitrary (shared ranks, truncated, different numbers of variants). *)
+Theorem C17_preference_addition_split_general : forall (coef : nat -> Q) pre post (b b' : ranked) (x : Q) (w : C),
+  Forall (fun bw => 0 <= snd bw)%Q (pre ++ post) -> (0 <= x)%Q ->
+  (forall r, spread (fun v => cumb coef v r w) b <= spread (fun v => cumb coef v r w) b')%Q ->
+  (forall r c, c <> w -> spread (fun v => cumb coef v r c) b' <= spread (fun v => cumb coef v r c) b)%Q ->
+  pa_eval true coef true (pre ++ (b, x) :: post) 1 = PA_ok [Cand w] ->
+  pa_eval true coef true (pre ++ (b', x) :: post) 1 = PA_ok [Cand w].
+Proof. exact pa_mono_replace_split. Qed.
+
+(* the winner (on a rank of its own) moves up past any items - plain or shared ranks - on a ballot that may contain shared
+   ranks anywhere (also further occurrences of w): any non-negative non-increasing coefficients.  The variants of the old and
+   of the new ballot correspond one to one (same permutations of the same shared ranks, same order), each pair related by the
+   upward move of w on a strict ranking. *)
+Theorem C17_preference_addition_shared : forall (coef : nat -> Q) pre post (p1 p2 p3 : ranked) (x : Q) (w : C),
+  (forall i, 0 <= coef i)%Q -> (forall i, coef (S i) <= coef i)%Q ->
+  Forall (fun bw => 0 <= snd bw)%Q (pre ++ post) -> (0 <= x)%Q -> ~ In w (flatten p2) ->
+  pa_eval true coef true (pre ++ (p1 ++ p2 ++ IP w :: p3, x) :: post) 1 = PA_ok [Cand w] ->
+  pa_eval true coef true (pre ++ (p1 ++ IP w :: p2 ++ p3, x) :: post) 1 = PA_ok [Cand w].
+Proof. exact pa_move_up_shared. Qed.
+
+(* the clause itself: Bucklin, and the Oklahoma preset *)
+Theorem C17_bucklin_shared : C17_bucklin_shared_full_statement.
+Proof.
+  intros pre post p1 p2 p3 x w. destruct bucklin_coef_good as [H1 H2].
+  exact (pa_move_up_shared bucklin_coef pre post p1 p2 p3 x w H1 H2).
+Qed.
+
+Theorem C17_oklahoma_shared : forall pre post (p1 p2 p3 : ranked) (x : Q) (w : C),
+  Forall (fun bw => 0 <= snd bw)%Q (pre ++ post) -> (0 <= x)%Q -> ~ In w (flatten p2) ->
+  oklahoma true (pre ++ (p1 ++ p2 ++ IP w :: p3, x) :: post) 1 = PA_ok [Cand w] ->
+  oklahoma true (pre ++ (p1 ++ IP w :: p2 ++ p3, x) :: post) 1 = PA_ok [Cand w].
+Proof.
+  intros pre post p1 p2 p3 x w. destruct oklahoma_coef_good as [H1 H2].
+  exact (pa_move_up_shared oklahoma_coef pre post p1 p2 p3 x w H1 H2).
+Qed.
+
+(* ---- the winner LEAVES a shared rank (Proofs/BucklinLeave_proofs.v): from the shared rank {la, w, lb} to a place of its own, directly
+   above the rest {la, lb} of the rank or further up past the items p2.  The old ballot has k! variants for that rank, the new one
+   (k-1)!; itertools.permutations of (la ++ w :: lb) is, as a multiset, every insertion of w into every permutation of (la ++ lb)
+   ([perms_insert], proved for the model of permutations [perms_n]/[picks] by sums), so the sum of any w-monotone functional over the
+   old variants is at most k times the sum over the new ones, and the means are ordered. *)
+Theorem C17_preference_addition_leave_shared : forall (coef : nat -> Q) pre post (p1 p2 p3 : ranked) (la lb : list C) (x : Q) (w : C),
+  (forall i, 0 <= coef i)%Q -> (forall i, coef (S i) <= coef i)%Q ->
+  Forall (fun bw => 0 <= snd bw)%Q (pre ++ post) -> (0 <= x)%Q -> ~ In w (la ++ lb) -> ~ In w (flatten p2) ->
+  pa_eval true coef true (pre ++ (p1 ++ p2 ++ IS (la ++ w :: lb) :: p3, x) :: post) 1 = PA_ok [Cand w] ->
+  pa_eval true coef true (pre ++ (p1 ++ IP w :: p2 ++ IS (la ++ lb) :: p3, x) :: post) 1 = PA_ok [Cand w].
+Proof. exact pa_leave_shared_up. Qed.
+
+Theorem C17_bucklin_leave_shared : forall pre post (p1 p2 p3 : ranked) (la lb : list C) (x : Q) (w : C),
+  Forall (fun bw => 0 <= snd bw)%Q (pre ++ post) -> (0 <= x)%Q -> ~ In w (la ++ lb) -> ~ In w (flatten p2) ->
+  bucklin true (pre ++ (p1 ++ p2 ++ IS (la ++ w :: lb) :: p3, x) :: post) 1 = PA_ok [Cand w] ->
+  bucklin true (pre ++ (p1 ++ IP w :: p2 ++ IS (la ++ lb) :: p3, x) :: post) 1 = PA_ok [Cand w].
+Proof.
+  intros pre post p1 p2 p3 la lb x w. destruct bucklin_coef_good as [H1 H2].
+  exact (pa_leave_shared_up bucklin_coef pre post p1 p2 p3 la lb x w H1 H2).
+Qed.
+
+Theorem C17_oklahoma_leave_shared : forall pre post (p1 p2 p3 : ranked) (la lb : list C) (x : Q) (w : C),
+  Forall (fun bw => 0 <= snd bw)%Q (pre ++ post) -> (0 <= x)%Q -> ~ In w (la ++ lb) -> ~ In w (flatten p2) ->
+  oklahoma true (pre ++ (p1 ++ p2 ++ IS (la ++ w :: lb) :: p3, x) :: post) 1 = PA_ok [Cand w] ->
+  oklahoma true (pre ++ (p1 ++ IP w :: p2 ++ IS (la ++ lb) :: p3, x) :: post) 1 = PA_ok [Cand w].
+Proof.
+  intros pre post p1 p2 p3 la lb x w. destruct oklahoma_coef_good as [H1 H2].
+  exact (pa_leave_shared_up oklahoma_coef pre post p1 p2 p3 la lb x w H1 H2).
+Qed.
+
+(* two ballots with the same variants are interchangeable (e.g. a shared rank with one member written as a plain rank); so when w
+   leaves a shared PAIR {w, c} the remaining member may be written as the plain rank c *)
+Theorem C17_preference_addition_same_variants : forall (coef : nat -> Q) pre post (b b' : ranked) (x : Q) (w : C),
+  Forall (fun bw => 0 <= snd bw)%Q (pre ++ post) -> (0 <= x)%Q -> svariants b = svariants b' ->
+  pa_eval true coef true (pre ++ (b, x) :: post) 1 = PA_ok [Cand w] ->
+  pa_eval true coef true (pre ++ (b', x) :: post) 1 = PA_ok [Cand w].
+Proof. exact pa_same_variants. Qed.
+
+Theorem C17_preference_addition_leave_pair : forall (coef : nat -> Q) pre post (p1 p2 p3 : ranked) (la lb : list C) (c : C) (x : Q) (w : C),
+  (forall i, 0 <= coef i)%Q -> (forall i, coef (S i) <= coef i)%Q ->
+  Forall (fun bw => 0 <= snd bw)%Q (pre ++ post) -> (0 <= x)%Q -> la ++ lb = [c] -> c <> w -> ~ In w (flatten p2) ->
+  pa_eval true coef true (pre ++ (p1 ++ p2 ++ IS (la ++ w :: lb) :: p3, x) :: post) 1 = PA_ok [Cand w] ->
+  pa_eval true coef true (pre ++ (p1 ++ IP w :: p2 ++ IP c :: p3, x) :: post) 1 = PA_ok [Cand w].
+Proof. exact pa_leave_pair. Qed.
+
+(* non-vacuity: {(A,{B,C,W}): 2, (W): 1, (B,W): 3, (A): 1} (A,B,C = 1,2,3, W = 6): Bucklin elects W (without the first ballot: B); W leaves
+   the shared rank of the first ballot for the first place: (W,A,{B,C}); 6 variants before, 2 after *)
+Example C17_bucklin_leave_example :
+  let post := [([IP 6%positive], 1%Q); ([IP 2; IP 6]%positive, 3%Q); ([IP 1%positive], 1%Q)] in
+  bucklin true ([] ++ ([] ++ [IP 1%positive] ++ IS ([2%positive] ++ 6%positive :: [3%positive]) :: [], 2%Q) :: post) 1 = PA_ok [Cand 6%positive] /\
+  bucklin true ([] ++ ([] ++ IP 6%positive :: [IP 1%positive] ++ IS ([2%positive] ++ [3%positive]) :: [], 2%Q) :: post) 1 = PA_ok [Cand 6%positive] /\
+  length (variants true [IP 1; IS [2; 6; 3]]%positive) = 6%nat /\ length (variants true [IP 6; IP 1; IS [2; 3]]%positive) = 2%nat.
+Proof. vm_compute. repeat split; reflexivity. Qed.
+
+(* non-vacuity: {({A,B},{C,D},E,W): 2, (C,W): 3, (W): 1} (A..E = 1..5, W = 6): the first ballot has 4 variants of weight 1/2 each;
+   Bucklin elects W in both profiles (without that ballot C would win) *)
+Example C17_bucklin_shared_example :
+  let post := [([IP 3; IP 6]%positive, 3%Q); ([IP 6%positive], 1%Q)] in
+  bucklin true post 1 = PA_ok [Cand 3%positive] /\
+  length (variants true [IS [1; 2]; IS [3; 4]; IP 5; IP 6]%positive) = 4%nat /\
+  bucklin true ([] ++ ([IS [1; 2]%positive] ++ [IS [3; 4]%positive; IP 5%positive] ++ IP 6%positive :: [], 2%Q) :: post) 1 = PA_ok [Cand 6%positive] /\
+  bucklin true ([] ++ ([IS [1; 2]%positive] ++ IP 6%positive :: [IS [3; 4]%positive; IP 5%positive] ++ [], 2%Q) :: post) 1 = PA_ok [Cand 6%positive].
+Proof. vm_compute. repeat split; reflexivity. Qed.
 
 (* non-vacuity: a profile with a truncated ballot and a split shared rank: {(D,A): 3, (B,C,A): 2, ({B,C},D): 1};
    Bucklin elects A in the third round (5 against D's 4, quota 3); after A has moved up to (B,A,C) already in the second.
@@ -369,3 +672,28 @@ Print Assumptions C17_bucklin_added.
 Print Assumptions C17_oklahoma_added.
 Print Assumptions C17_bucklin_added_full_refuted.
 Print Assumptions C17_bucklin_shared_refuted.
+Print Assumptions C17_decouple_linear.
+Print Assumptions C17_preference_addition_split_general.
+Print Assumptions C17_preference_addition_shared.
+Print Assumptions C17_bucklin_shared.
+Print Assumptions C17_oklahoma_shared.
+Print Assumptions C17_ballot_pairwise_exact.
+Print Assumptions C17_ballot_raises.
+Print Assumptions C17_copeland_s.
+Print Assumptions C17_minimax_s.
+Print Assumptions C17_copeland_ballots.
+Print Assumptions C17_minimax_ballots.
+Print Assumptions C17_scorers_nonincreasing_all.
+Print Assumptions C17_scorer_ok.
+Print Assumptions C17_gen_scorers_nonincreasing.
+Print Assumptions C17_positional_any.
+Print Assumptions C17_scorers_conditions_needed.
+Print Assumptions C17_preference_addition_leave_shared.
+Print Assumptions C17_bucklin_leave_shared.
+Print Assumptions C17_oklahoma_leave_shared.
+Print Assumptions C17_preference_addition_same_variants.
+Print Assumptions C17_preference_addition_leave_pair.
+Print Assumptions C17_ballot_leave_exact.
+Print Assumptions C17_ballot_leave_raises.
+Print Assumptions C17_copeland_ballots_leave.
+Print Assumptions C17_minimax_ballots_leave.
